@@ -158,7 +158,7 @@ def _normalize_parsed_value_elements(
             dictionary[element_name] = measure.value.datetime
         else:
             scale = _FIELD_SCALING.get(element_name, None)
-            if scale:
+            if scale and isinstance(measure.value, int):
                 scaled_value = round(measure.value * (10**scale), abs(scale))
                 dictionary[element_name] = scaled_value
             else:
@@ -190,7 +190,7 @@ def _normalize_parsed_obis_elements(
             dictionary[element_name] = measure.value.datetime
         else:
             scale = _FIELD_SCALING.get(element_name, None)
-            if scale:
+            if scale and isinstance(measure.value, int):
                 scaled_value = round(measure.value * (10**scale), abs(scale))
                 dictionary[element_name] = scaled_value
             else:
